@@ -200,7 +200,7 @@ Fixpoint skip_line (s : bytes) : bytes :=
   match s with
   | [] => []
   | c :: r => if c =? 10 then r
-              else if c =? 13 then (match r with 10 :: r2 => r2 | _ => r end)
+              else if c =? 13 then (match r with c2 :: r2 => if c2 =? 10 then r2 else r | [] => r end)
               else skip_line r
   end.
 
@@ -235,12 +235,10 @@ Fixpoint next_tok (fuel : nat) (s : bytes) : tok * bytes :=
           else if c =? 40 then
             match read_string (S (length r)) r 0 [] with Some (b, rest) => (TStr b, rest) | None => (TErr, []) end
           else if c =? 60 then
-            match r with
-            | 60 :: r2 => (TDO, r2)
-            | _ => match read_hex_digits r [] with Some (ds, rest) => (THexS ds, rest) | None => (TErr, []) end
-            end
+            if match r with c2 :: _ => c2 =? 60 | [] => false end then (TDO, skipn 1 r)
+            else match read_hex_digits r [] with Some (ds, rest) => (THexS ds, rest) | None => (TErr, []) end
           else if c =? 62 then
-            match r with 62 :: r2 => (TDC, r2) | _ => (TErr, []) end
+            if match r with c2 :: _ => c2 =? 62 | [] => false end then (TDC, skipn 1 r) else (TErr, [])
           else if c =? 47 then
             match read_name_core (S (length r)) r [] with Some (b, rest) => (TNm b, rest) | None => (TErr, []) end
           else if is_digit c || (c =? 45) || (c =? 43) || (c =? 46) then
@@ -369,18 +367,19 @@ Definition core_parse (s : bytes) : pres :=
 (* ---------- the content stream parser ---------- *)
 
 (* whitespace and comments *)
+Fixpoint cs_line (l : bytes) : bytes :=
+  match l with
+  | [] => []
+  | x :: r2 => if (x =? 10) || (x =? 13) then l else cs_line r2
+  end.
+
 Fixpoint cs_skip (fuel : nat) (s : bytes) : bytes :=
   match fuel with
   | O => s
   | S f =>
       match s with
       | c :: r => if is_ws c then cs_skip f r
-                  else if c =? 37 then
-                    cs_skip f ((fix line (l : bytes) : bytes :=
-                                  match l with
-                                  | [] => []
-                                  | x :: r2 => if (x =? 10) || (x =? 13) then l else line r2
-                                  end) r)
+                  else if c =? 37 then cs_skip f (cs_line r)
                   else s
       | [] => []
       end
@@ -393,11 +392,12 @@ Fixpoint has_prefix (p s : bytes) : bool :=
   | _ :: _, [] => false
   end.
 
+Definition kw_ends (r : bytes) : bool := match r with [] => true | c :: _ => is_ws c || is_delim c end.
+
 Definition keyword_at (s : bytes) : option (obj * bytes) :=
-  let ends (r : bytes) := match r with [] => true | c :: _ => is_ws c || is_delim c end in
-  if has_prefix (bs "true") s && ends (skipn 4 s) then Some (OBool true, skipn 4 s)
-  else if has_prefix (bs "false") s && ends (skipn 5 s) then Some (OBool false, skipn 5 s)
-  else if has_prefix (bs "null") s && ends (skipn 4 s) then Some (ONull, skipn 4 s)
+  if has_prefix (bs "true") s && kw_ends (skipn 4 s) then Some (OBool true, skipn 4 s)
+  else if has_prefix (bs "false") s && kw_ends (skipn 5 s) then Some (OBool false, skipn 5 s)
+  else if has_prefix (bs "null") s && kw_ends (skipn 4 s) then Some (ONull, skipn 4 s)
   else None.
 
 (* parseNumber of the content stream parser *)
@@ -409,11 +409,14 @@ Fixpoint cs_digits (s : bytes) (acc : bytes) (dot : bool) : bytes * bool * bytes
   | [] => (rev acc, dot, [])
   end.
 
+Definition cs_sign (s : bytes) : bytes * bytes :=
+  match s with
+  | c :: r => if (c =? 43) || (c =? 45) then ([c], r) else ([], s)
+  | [] => ([], [])
+  end.
+
 Definition cs_number (s : bytes) : option (obj * bytes) :=
-  let '(sign, body) := match s with
-                       | c :: r => if (c =? 43) || (c =? 45) then ([c], r) else ([], s)
-                       | [] => ([], [])
-                       end in
+  let '(sign, body) := cs_sign s in
   let '(ds, dot, rest) := cs_digits body [] false in
   let lexeme := sign ++ ds in
   if dot then match parse_real lexeme with Some o => Some (o, rest) | None => None end
@@ -452,6 +455,52 @@ Fixpoint cs_hex (fuel : nat) (s : bytes) (acc : bytes) : option (bytes * bytes) 
 
 Inductive cres := COk (o : obj) (rest : bytes) | CErr.
 
+(* elements of an array after '[' and entries of a dictionary after '<<'; P reads one operand *)
+Fixpoint cs_arr (P : bytes -> cres) (g : nat) (s1 : bytes) (acc : list obj) : cres :=
+  match g with
+  | O => CErr
+  | S g' =>
+      match s1 with
+      | [] => COk (OArr (rev acc)) []            (* data ends right after an element *)
+      | _ =>
+          match cs_skip (S (length s1)) s1 with
+          | [] => CErr
+          | c :: r2 =>
+              if c =? 93 then COk (OArr (rev acc)) r2
+              else match P (c :: r2) with
+                   | COk o rest => cs_arr P g' rest (o :: acc)
+                   | CErr => CErr
+                   end
+          end
+      end
+  end.
+
+Fixpoint cs_dict (P : bytes -> cres) (g : nat) (s1 : bytes) (acc : list (bytes * obj)) : cres :=
+  match g with
+  | O => CErr
+  | S g' =>
+      match s1 with
+      | [] => COk (ODict (rev acc)) []
+      | _ =>
+          match cs_skip (S (length s1)) s1 with
+          | [] => CErr
+          | c :: r2 =>
+              if c =? 62 then
+                match r2 with
+                | c2 :: r3 => if c2 =? 62 then COk (ODict (rev acc)) r3 else CErr
+                | [] => CErr
+                end
+              else if c =? 47 then
+                let '(k, rest) := read_name_cs (S (length r2)) r2 [] in
+                match P rest with
+                | COk o rest2 => cs_dict P g' rest2 ((k, o) :: acc)
+                | CErr => CErr
+                end
+              else CErr
+          end
+      end
+  end.
+
 Fixpoint cs_operand (fuel : nat) (s0 : bytes) : cres :=
   match fuel with
   | O => CErr
@@ -468,45 +517,9 @@ Fixpoint cs_operand (fuel : nat) (s0 : bytes) : cres :=
             match cs_hex (S (length r)) r [] with Some (b, rest) => COk (OStr b) rest | None => CErr end
           else if c =? 47 then
             let '(b, rest) := read_name_cs (S (length r)) r [] in COk (OName b) rest
-          else if c =? 91 then
-            (fix arr (g : nat) (s1 : bytes) (acc : list obj) : cres :=
-               match g with
-               | O => CErr
-               | S g' =>
-                   match s1 with
-                   | [] => COk (OArr (rev acc)) []            (* data ends right after an element *)
-                   | _ =>
-                       match cs_skip (S (length s1)) s1 with
-                       | [] => CErr
-                       | 93 :: r2 => COk (OArr (rev acc)) r2
-                       | s2 => match cs_operand f s2 with
-                               | COk o rest => arr g' rest (o :: acc)
-                               | CErr => CErr
-                               end
-                       end
-                   end
-               end) (S (length r)) r []
+          else if c =? 91 then cs_arr (cs_operand f) (S (length r)) r []
           else if (c =? 60) && (match r with c2 :: _ => c2 =? 60 | [] => false end) then
-            (fix dict (g : nat) (s1 : bytes) (acc : list (bytes * obj)) : cres :=
-               match g with
-               | O => CErr
-               | S g' =>
-                   match s1 with
-                   | [] => COk (ODict (rev acc)) []
-                   | _ =>
-                       match cs_skip (S (length s1)) s1 with
-                       | [] => CErr
-                       | 62 :: 62 :: r2 => COk (ODict (rev acc)) r2
-                       | 47 :: r2 =>
-                           let '(k, rest) := read_name_cs (S (length r2)) r2 [] in
-                           match cs_operand f rest with
-                           | COk o rest2 => dict g' rest2 ((k, o) :: acc)
-                           | CErr => CErr
-                           end
-                       | _ => CErr
-                       end
-                   end
-               end) (S (length r)) (skipn 1 r) []
+            cs_dict (cs_operand f) (S (length r)) (skipn 1 r) []
           else
             match keyword_at s with
             | Some (o, rest) => COk o rest
